@@ -33,7 +33,7 @@ func TestC11b(t *testing.T) {
 	if os.Getenv("VERIF_PROP") == "" {
 		_ = os.Setenv("VERIF_PROP", "C11")
 	}
-	stats := core.NewStats("C11", "tier (b), production queues: api + aio (completion queue size 1..8 or 100) + sqlite store subsystem (submission queue 1..8 or 100, batch size 1..16, real worker goroutine) + router, background coroutines TimeoutPromises / TimeoutLocks / TimeoutTasks / SchedulePromises with sweep batch sizes 1..100, coroutine pool 5..100, submission/completion batch sizes 1..50; rapid draws the configuration and a backlog of 5-60 overdue promises and 0-10 expired locks created through the API; then the clock jumps and the kernel is ticked (one background cycle per signal timeout). Oracle: every Tick returns (5 s watchdog: the kernel is the only consumer of its completion queue), and the backlog is worked off: no overdue pending promise / expired lock remains once ticks have continued for the bound (cycles needed by the smallest batch + slack, refusals for a full queue only delay); it is a violation only if nothing changes in the database for 2 s of continued ticking while overdue work remains. Non-trivial: a sweep batch larger than the completion or the store queue. Distinct = configuration shape.")
+	stats := core.NewStats("C11", "tier (b), production queues: api + aio (completion queue size 1..8 or 100) + sqlite store subsystem (submission queue 1..8 or 100, batch size 1..16, real worker goroutine) + router, background coroutines TimeoutPromises / TimeoutLocks / TimeoutTasks / SchedulePromises with sweep batch sizes 1..100, coroutine pool 5..100, submission/completion batch sizes 1..50; rapid draws the configuration and a backlog of 5-60 overdue promises and 0-10 expired locks created through the API; then the clock jumps and the kernel is ticked (one background cycle per signal timeout). Oracle: every Tick returns (5 s watchdog: the kernel is the only consumer of its completion queue), and the backlog is worked off: no overdue pending promise / expired lock remains once ticks have continued for the bound (cycles needed by the smallest batch + slack, refusals for a full queue only delay); it is a violation only if nothing changes in the database for 2 s of continued ticking and then for another 15 s of ticking at a slow pace (20 ms between ticks, so that a lagging store worker on a busy machine cannot be the reason) while overdue work remains. Non-trivial: a sweep batch larger than the completion or the store queue. Distinct = configuration shape.")
 	defer stats.Write()
 	dir := core.Scratch("verif-c11b-")
 	defer os.RemoveAll(dir)
@@ -153,7 +153,27 @@ func TestC11b(t *testing.T) {
 				last, lastChange = b, time.Now()
 			}
 			if time.Since(lastChange) > 2*time.Second && cycles > np+nl+20 {
-				msg := fmt.Sprintf("background processing does not converge: %d overdue promises / expired locks remain after %d cycles and 2 s of continued ticking without any change (completion queue %d, store queue %d, %s)", last, cycles, cqSize, sqSize, cfg)
+				// confirmation at a slow pace: on a busy machine the store's worker goroutine can lag behind a harness that
+				// ticks every 0.5 ms, and a queue of one then refuses nearly everything (that is delay by timing, not a
+				// defect): with 20 ms between ticks the worker certainly runs between two submissions; only a backlog that
+				// does not move for another 15 s of such ticking is reported
+				moved := false
+				for deadline, k := time.Now().Add(15*time.Second), 0; time.Now().Before(deadline) && !moved; k++ {
+					tick()
+					time.Sleep(20 * time.Millisecond)
+					if k%5 == 4 {
+						now += 1000
+						cycles++
+					}
+					if b := backlog(); b != last {
+						last, lastChange, moved = b, time.Now(), true
+					}
+				}
+				if moved {
+					stats.Class("slow-pace-confirmation-cleared")
+					continue
+				}
+				msg := fmt.Sprintf("background processing does not converge: %d overdue promises / expired locks remain after %d cycles, 2 s of continued ticking and 15 s of ticking at a slow pace without any change (completion queue %d, store queue %d, %s)", last, cycles, cqSize, sqSize, cfg)
 				core.SaveFailure("last", map[string]any{"violation": msg})
 				rt.Fatalf("VIOLATION C11 %s", msg)
 			}
